@@ -30,5 +30,5 @@ Proof. eexists. split. vm_compute. reflexivity. reflexivity. Qed.
 Definition x0 : opx :=
   Pipe (Union_ (Prim (PSel (STop (NInt 1) false))) (Prim (PSel (SFirst (NInt 1)))))
        (Concat (Prim (PMut (MUniform wall))) (Repeat 2 (Prim (PRec (RKPoint 1))))).
-Example ex_eval : exists out st, eval unit first_rng s0 x0 pop0 (tt, 2) = Ok (out, st) /\ length out = 6.
+Example ex_eval : exists out st, eval unit first_rng s0 x0 pop0 ((tt, 2), []) = Ok (out, st) /\ length out = 6.
 Proof. eexists. eexists. split. vm_compute. reflexivity. reflexivity. Qed.
